@@ -36,9 +36,15 @@ type Case struct {
 	MaxPayloads   int            `json:"maxPayloads,omitempty"` // >0: call the response function only this many times (1 = single-response transports)
 	LeakCheck     bool           `json:"leakCheck,omitempty"` // after the case: cancel, wait, and report surviving goroutines
 	Around        bool           `json:"around,omitempty"`     // install the universal field interceptor (universal.Around)
+	DefaultRecover bool          `json:"defaultRecover,omitempty"` // keep gqlgen's graphql.DefaultRecover (panics answer "internal system error"; recovers are not counted)
+	RecoverDelayUs int           `json:"recoverDelayUs,omitempty"` // the installed recover func sleeps this long before it returns (a slow logging hook)
 	Exts          []ExtSpec      `json:"exts,omitempty"`       // C16: handler extensions to register, in this order (c16ext.go)
 	Extensions    map[string]any `json:"extensions,omitempty"` // the request's `extensions` (RawParams.Extensions)
 	SchemaSDL     string         `json:"schemaSDL,omitempty"`  // C16: run this case on a server built with Config.Schema = this SDL (c16schema.go)
+	// C05: gqlgen's own (shipped) handler extensions to install, by name (c05ext.go shippedExt), and the request's
+	// HTTP headers (some extensions are switched on per request by a header)
+	Shipped []string          `json:"shipped,omitempty"`
+	Headers map[string]string `json:"headers,omitempty"`
 }
 
 type ErrOut struct {
@@ -76,6 +82,7 @@ type Result struct {
 	FaultKind string          `json:"faultKind,omitempty"`
 	Event     int             `json:"event,omitempty"` // subscriptions: which event this (split) result is
 	Around    bool            `json:"around,omitempty"`
+	DefaultRecover bool       `json:"defaultRecover,omitempty"`
 }
 
 // SplitEvents turns the result of a subscription into one result per delivered event: the event's
@@ -160,12 +167,18 @@ func RunCase(es graphql.ExecutableSchema, c Case) Result {
 	res := Result{ID: c.ID, Query: c.Query, Variables: c.Variables, OpName: c.OperationName, Payloads: []Payload{}}
 	ex := executor.New(es)
 	var rmu sync.Mutex
-	ex.SetRecoverFunc(func(ctx context.Context, err any) error {
-		rmu.Lock()
-		st.Recov++
-		rmu.Unlock()
-		return fmt.Errorf("recovered: %v", err)
-	})
+	if !c.DefaultRecover {
+		ex.SetRecoverFunc(func(ctx context.Context, err any) error {
+			rmu.Lock()
+			st.Recov++
+			rmu.Unlock()
+			if c.RecoverDelayUs > 0 {
+				time.Sleep(time.Duration(c.RecoverDelayUs) * time.Microsecond)
+			}
+			return fmt.Errorf("recovered: %v", err)
+		})
+	}
+	res.DefaultRecover = c.DefaultRecover
 	if c.Introspection {
 		ex.Use(introspectionOn{})
 	}
@@ -185,6 +198,9 @@ func RunCase(es graphql.ExecutableSchema, c Case) Result {
 	if err := useExts(ex, c.Exts); err != nil {
 		return Result{ID: c.ID, Query: c.Query, Payloads: []Payload{}, Crash: "bad exts: " + err.Error()}
 	}
+	if err := useShipped(ex.Use, c.Shipped); err != nil {
+		return Result{ID: c.ID, Query: c.Query, Payloads: []Payload{}, Crash: "bad shipped: " + err.Error()}
+	}
 	base, cancel := context.WithCancel(context.Background())
 	defer cancel()
 	st.Cancel = cancel
@@ -198,7 +214,7 @@ func RunCase(es graphql.ExecutableSchema, c Case) Result {
 				res.Crash = fmt.Sprint(r)
 			}
 		}()
-		rc, errs := ex.CreateOperationContext(ctx, &graphql.RawParams{Query: c.Query, OperationName: c.OperationName, Variables: c.Variables, Extensions: c.Extensions})
+		rc, errs := ex.CreateOperationContext(ctx, &graphql.RawParams{Query: c.Query, OperationName: c.OperationName, Variables: c.Variables, Extensions: c.Extensions, Headers: headerOf(c.Headers)})
 		if errs != nil {
 			res.GateErr = errsOut(errs)
 			if rc != nil && rc.Doc != nil {
